@@ -174,12 +174,13 @@ def coq_eval(scratch, require, terms, shard=150, tag="cases"):
 
 # ------------------------------------------------------------------ implementation side
 def run_impl(scratch, impl_dir, pid, cases, coq_results, nworkers=None, sanitize=False, timeout=3000):
+    """Run the implementation side.  A case may carry "pyflags": [...] (e.g. ["-O"], ["-bb"]): interpreter options the
+    worker process of that case is started with (they are part of the case, so a replay uses them too); cases are grouped
+    by their flags and every group gets its own worker processes."""
     nworkers = nworkers or NPROC
     n = len(cases)
     if n == 0:
         return []
-    nworkers = max(1, min(nworkers, (n + 19) // 20))
-    chunks = [list(range(i, n, nworkers)) for i in range(nworkers)]
     d = os.path.join(scratch, "impl")
     os.makedirs(d, exist_ok=True)
     procs = []
@@ -195,15 +196,27 @@ def run_impl(scratch, impl_dir, pid, cases, coq_results, nworkers=None, sanitize
         env["LD_PRELOAD"] = lib
         env["ASAN_OPTIONS"] = "detect_leaks=0:abort_on_error=0:exitcode=77"
         env["UBSAN_OPTIONS"] = "halt_on_error=1:exitcode=78:print_stacktrace=1"
-    for w, idxs in enumerate(chunks):
-        inp = os.path.join(d, "in_%d.json" % w)
-        outp = os.path.join(d, "out_%d.json" % w)
-        with open(inp, "w") as f:
-            json.dump({"prop": pid, "work": os.path.join(d, "w%d" % w),
-                       "items": [{"i": i, "case": cases[i], "coq": coq_results[i]} for i in idxs]}, f)
-        p = subprocess.Popen([PY, "-m", "pv.worker", inp, outp], env=env, cwd=VERIF,
-                             stdout=subprocess.PIPE, stderr=subprocess.STDOUT, text=True)
-        procs.append((p, outp, idxs))
+    groups = {}
+    for i, c in enumerate(cases):
+        fl = tuple(c.get("pyflags") or ()) if isinstance(c, dict) else ()
+        for f in fl:
+            if not (isinstance(f, str) and re.fullmatch(r"-[A-Za-z][A-Za-z0-9:=_.,-]*|error(::\w+)?|default|dev|utf8(=[01])?", f)):
+                raise RuntimeError("bad interpreter flag in case: %r" % (f,))
+        groups.setdefault(fl, []).append(i)
+    w = 0
+    for fl, members in sorted(groups.items()):
+        nw = max(1, min(nworkers, (len(members) + 19) // 20))
+        for k in range(nw):
+            idxs = members[k::nw]
+            inp = os.path.join(d, "in_%d.json" % w)
+            outp = os.path.join(d, "out_%d.json" % w)
+            with open(inp, "w") as f:
+                json.dump({"prop": pid, "work": os.path.join(d, "w%d" % w),
+                           "items": [{"i": i, "case": cases[i], "coq": coq_results[i]} for i in idxs]}, f)
+            p = subprocess.Popen([PY] + list(fl) + ["-m", "pv.worker", inp, outp], env=env, cwd=VERIF,
+                                 stdout=subprocess.PIPE, stderr=subprocess.STDOUT, text=True)
+            procs.append((p, outp, idxs))
+            w += 1
     results = [None] * n
     for p, outp, idxs in procs:
         try:
@@ -231,6 +244,14 @@ def run_impl(scratch, impl_dir, pid, cases, coq_results, nworkers=None, sanitize
             else:
                 results[i] = {"t": "WorkerDied", "a": [(out or "")[-1500:]]}
     return results
+
+
+def assign_pyflags(cases, rng, modes=(("-O",), ("-bb",)), frac=0.12, only=None):
+    """Give a deterministic sample of the cases interpreter options (see run_impl).  `only(case)` may restrict the choice."""
+    for c in cases:
+        if isinstance(c, dict) and "pyflags" not in c and (only is None or only(c)) and rng.random() < frac:
+            c["pyflags"] = list(modes[rng.randrange(len(modes))])
+    return cases
 
 
 # ------------------------------------------------------------------ findings
